@@ -271,6 +271,10 @@ def plan(prop, tier):
                                                           maxTop=4, maxPull=3, allowFail=True), None))
             fams.append(("flatten2_push", scen.with_bounds(scen.flatten_g(2, "push", "push"), "flatten", maxData=2,
                                                           maxTop=4 if q else 5, maxPull=1, allowFail=False), None))
+            # an outer that emits the very same inner source value twice in a row
+            fams.append(("flatten1_same", scen.with_bounds(scen.flatten_g(1, "push", "push") if q else scen.flatten_g(1),
+                                                          "flatten", maxData=2, maxTop=4 if q else 5,
+                                                          maxPull=0 if q else 1, allowFail=False, burst=False), None))
         if prop == "C12":
             fams.append(("share2_push", scen.with_bounds(scen.share_g("push"), "share", sinks=["probe", "probe"],
                                                         maxData=2, maxTop=5, maxPull=1, allowFail=True), None))
@@ -463,7 +467,9 @@ STAGES = ([("map", dict(f=f)) for f in ("inc", "dbl")]
           # three members: an empty one in the middle, and the pipeline itself in the middle
           + [("concat_3", dict(ys=[], zs=[7])), ("concat_m", dict(ys=[9], zs=[7]))]
           # the same source value used twice in one pipeline: concat!(s, s)
-          + [("concat_self", dict())])
+          + [("concat_self", dict())]
+          # a concat!() of no member nested as the middle member: concat!(s, concat!(), from_iter([7]))
+          + [("concat_z", dict(zs=[7]))])
 
 
 def build_pipeline(xs, stages):
@@ -476,6 +482,11 @@ def build_pipeline(xs, stages):
     for kind, par in stages:
         if kind == "concat_self":
             nodes.append({"id": len(nodes) + 1, "kind": "concat", "ups": [cur, cur]})
+        elif kind == "concat_z":
+            nodes.append({"id": len(nodes) + 1, "kind": "concat", "ups": []})
+            empty = len(nodes)
+            nodes.append({"id": len(nodes) + 1, "kind": "from_iter", "items": list(par["zs"])})
+            nodes.append({"id": len(nodes) + 1, "kind": "concat", "ups": [cur, empty, len(nodes)]})
         elif kind in ("concat_r", "concat_l", "concat_3", "concat_m"):
             nodes.append({"id": len(nodes) + 1, "kind": "from_iter", "items": list(par["ys"])})
             other = len(nodes)
@@ -513,7 +524,8 @@ def stage_seqs(depth):
 QUICK_STAGES = [("map", dict(f="inc")), ("filter", dict(p="even")), ("scan", dict(r="lin", seed=5)),
                 ("take", dict(n=2)), ("skip", dict(n=1)), ("flatmap", dict(g="upto")),
                 ("flatmap", dict(g="oddonly")), ("concat_r", dict(ys=[7, 8])), ("concat_l", dict(ys=[9])),
-                ("concat_3", dict(ys=[], zs=[7])), ("concat_m", dict(ys=[9], zs=[7])), ("concat_self", dict())]
+                ("concat_3", dict(ys=[], zs=[7])), ("concat_m", dict(ys=[9], zs=[7])), ("concat_self", dict()),
+                ("concat_z", dict(zs=[7]))]
 
 
 def terminates_on_unbounded(sq):
@@ -522,7 +534,7 @@ def terminates_on_unbounded(sq):
     if "take" not in kinds:
         return False
     before = sq[:kinds.index("take")]
-    return not any(k in ("concat_r", "concat_3", "concat_m", "concat_self") or (k == "filter" and p.get("p") == "none")
+    return not any(k in ("concat_r", "concat_3", "concat_m", "concat_self", "concat_z") or (k == "filter" and p.get("p") == "none")
                    for k, p in before)
 
 
